@@ -657,14 +657,27 @@ class Gen:
         if opn in ('prod', 'sum'):
             self.try_op(opn, [x], {}, ['S'])
             return
+        # second operand: the list itself, or an all-whole list of the same length (so that the two operands of a
+        # binary list operation differ in integrality, in either order)
+        y = x
+        if rng.random() < 0.5:
+            a2 = a
+            if rng.random() < 0.5 and self.try_op('const', [], {'value': self.rand_val(integral=True)}, ['S']):
+                a2 = self.S[-1]
+            if self.try_op('mklist', [rng.choice((a, a2)) for _ in range(n)], {}, ['L']):
+                y = self.L[-1]
+        u, v = (x, y) if rng.random() < 0.5 else (y, x)
         if opn == 'scalar_mul':
             self.try_op(opn, [a, x], {}, ['L'])
         elif opn == 'matrix_prod':
-            self.try_op(opn, [x, x], {'r': n, 's': 1}, ['L']) or self.try_op('schur_prod', [x, x], {}, ['L'])
+            self.try_op(opn, [u, v], {'r': n, 's': 1}, ['L']) or self.try_op('schur_prod', [u, v], {}, ['L'])
         elif opn == 'in_prod':
-            self.try_op(opn, [x, x], {}, ['S'])
+            if self.try_op(opn, [u, v], {}, ['S']) and rng.random() < 0.7:
+                # use the result: a wrong integral flag only shows in the next integrality-dependent operation
+                self.try_op('mul', [self.S[-1], b], {}, ['S'])
         else:
-            self.try_op(opn, [x, x], {}, ['L'])
+            if self.try_op(opn, [u, v], {}, ['L']) and rng.random() < 0.5:
+                self.try_op('schur_prod', [self.L[-1], x], {}, ['L'])
 
     def build(self, all_outputs=False):
         rng = self.rng
